@@ -232,7 +232,7 @@ theorem G_step (sc : Scripts) (w : World) (s : FState) (c : Cmd) (h : G s w)
       split
       · rename_i hcond
         simp only [Bool.and_eq_true, decide_eq_true_eq] at hcond
-        have hu : u ≤ w.naccepted := hcond.1.1.1.1.2
+        have hu : u ≤ w.naccepted := hcond.1.1.1.1.1.2
         refine ⟨?_, ?_, h.clean⟩
         · intro x
           simp only [List.foldl_cons, List.foldl_nil, fifoStep, get_upd]
